@@ -166,7 +166,8 @@ theorem mutex_recursion_depth_counted {s : Mutex.St} (h : Mutex.Reach s) :
     the successes of the polling fallback are counted like all others.) -/
 theorem sem_conservation {c now e : Nat} {s : Sem.St} (h : Sem.Reach c now e s) :
     s.count + s.succ = c + s.posts ∧ s.succ ≤ c + s.posts ∧
-    (0 < s.count → ∀ t, (s.pc t = .wait ∨ s.pc t = .tryWait ∨ (∃ d, s.pc t = .twait d) ∨ ∃ d i, s.pc t = .pollTry d i) →
+    (0 < s.count → ∀ t, (s.pc t = .wait ∨ s.pc t = .tryWait ∨ (∃ d, s.pc t = .twait d) ∨ (∃ d i, s.pc t = .pollTry d i) ∨
+        ∃ ms, s.pc t = .twTry ms) →
       ∃ s', Sem.step s t (.run 0) = some s' ∧ s'.ret t = some (.bool true) ∧ s'.pc t = .idle ∧ s'.succ = s.succ + 1) := by
   have hi := Sem.inv_reach h
   have h0 := Sem.init0_reach h
@@ -175,9 +176,9 @@ theorem sem_conservation {c now e : Nat} {s : Sem.St} (h : Sem.Reach c now e s) 
   refine ⟨hc, by omega, ?_⟩
   intro hpos t hpc
   cases hs : Sem.step s t (.run 0) with
-  | none => rcases hpc with hpc | hpc | ⟨d, hpc⟩ | ⟨d, i, hpc⟩ <;> simp [Sem.step, hpc, hpos] at hs
+  | none => rcases hpc with hpc | hpc | ⟨d, hpc⟩ | ⟨d, i, hpc⟩ | ⟨ms, hpc⟩ <;> simp [Sem.step, hpc, hpos] at hs
   | some s' =>
-    rcases hpc with hpc | hpc | ⟨d, hpc⟩ | ⟨d, i, hpc⟩ <;> simp [Sem.step, hpc, hpos] at hs <;> subst hs <;>
+    rcases hpc with hpc | hpc | ⟨d, hpc⟩ | ⟨d, i, hpc⟩ | ⟨ms, hpc⟩ <;> simp [Sem.step, hpc, hpos] at hs <;> subst hs <;>
       exact ⟨_, rfl, by simp [Sem.done], by simp [Sem.done], by simp [Sem.done]⟩
 
 example : ∃ s, Sem.Reach 1 0 1 s ∧ 0 < s.count ∧ s.pc 1 = .wait ∧ s.succ = 1 := by
@@ -207,7 +208,8 @@ theorem sem_trywait_never_blocks (s : Sem.St) (t : Tid) (hpc : s.pc t = .tryWait
       time-out` (with ETIMEDOUT only at count zero; after ENOSYS with a time-out ≤ 0 the fallback returns without looking at the
       count); the polling fallback only from its `usleep`, not before `call time + time-out`, never from its `sem_trywait`; or
     * it stays inside the call and has consumed nothing: the EINTR retry of the timed wait (same program point, same
-      deadline), or a move into / within the polling fallback (same deadline record).
+      deadline), a move into / within the polling fallback (same deadline record), or — try-first variant — the failed
+      `sem_trywait` fast path at count zero, after which the clock is read (deadline record: this moment, the requested ms).
     No step of a waiter changes the number of signals. -/
 theorem sem_wait_step_accounting {c now e : Nat} {s : Sem.St} (h : Sem.Reach c now e s) (t : Tid) (alt : Nat) (s' : Sem.St)
     (hw : Sem.inCall (s.pc t) = true) (hs : Sem.step s t (.run alt) = some s') :
@@ -220,7 +222,8 @@ theorem sem_wait_step_accounting {c now e : Nat} {s : Sem.St} (h : Sem.Reach c n
         (∀ d i w, s.pc t = .pollSleep d i w → w ≤ s.now ∧ d.t0 + d.ms * 1000000 ≤ s.now)) ∨
      (s'.pc t = s.pc t ∧ (∃ d, s.pc t = .twait d) ∧ s'.count = s.count ∧ s'.succ = s.succ ∧ s'.eintr + 1 = s.eintr) ∨
      (Sem.polling (s'.pc t) = true ∧ Sem.Pc.dl (s'.pc t) = Sem.Pc.dl (s.pc t) ∧ s'.count = s.count ∧ s'.succ = s.succ ∧
-        ((∃ d, s.pc t = .twait d) → alt = 3 ∧ s'.enosys + 1 = s.enosys))) := by
+        ((∃ d, s.pc t = .twait d) → alt = 3 ∧ s'.enosys + 1 = s.enosys)) ∨
+     (∃ ms d, s.pc t = .twTry ms ∧ s'.pc t = .twait d ∧ d.ms = ms ∧ d.t0 = s.now ∧ s.count = 0 ∧ s'.count = s.count ∧ s'.succ = s.succ)) := by
   have hi := Sem.inv_reach h
   have hdl := hi.dlOk t
   have hpt := hi.pollTry t
@@ -231,7 +234,7 @@ theorem sem_wait_step_accounting {c now e : Nat} {s : Sem.St} (h : Sem.Reach c n
   all_goals
     try simp only [Sem.done, Sem.goto] at hs
     (repeat' split at hs) <;> simp at hs <;> (try subst hs) <;>
-      (refine ⟨by simp, ?_⟩; grind [upd, expired_iff, Sem.polling, Sem.Pc.dl])
+      (refine ⟨by simp, ?_⟩; grind [upd, expired_iff, Sem.polling, Sem.Pc.dl, mkDeadline_ok])
 
 example : ∃ s, Sem.Reach 0 0 1 s ∧ Sem.inCall (s.pc 1) = true ∧ (Sem.step s 1 (.run 1)).isSome = true := by
   refine ⟨_, Sem.reach_runActs [(1, .call (.twait 5))] (.init 0) rfl, rfl, rfl⟩
@@ -354,12 +357,46 @@ theorem signal_mutex_holder_can_step {set0 : Bool} {now spur : Nat} {s : Signal.
     (`signal_every_waiter_eventually_returns` is the fair-run version for present and future waiters.) -/
 theorem signal_future_waiter_returns_true_while_set (s : Signal.St) (u : Tid) (dl : Option Deadline)
     (hu : s.pc u = .wLock dl) (hf : s.flag = true) (hm : s.m = none) :
-    ∃ s1 s2, Signal.step s u (.run 0) = some s1 ∧ s1.pc u = .wUnlock true dl ∧ s1.m = some u ∧ s1.flag = true ∧
+    ∃ s1 s2 dl', Signal.step s u (.run 0) = some s1 ∧ s1.pc u = .wUnlock true dl' ∧ s1.m = some u ∧ s1.flag = true ∧
       Signal.step s1 u (.run 0) = some s2 ∧ s2.pc u = .idle ∧ s2.ret u = some (.bool true) ∧ s2.flag = true ∧ s2.m = none := by
-  refine ⟨_, _, by simp [Signal.step, hu, hm, Signal.loopHead, hf]; rfl, by simp [Signal.goto], by simp [Signal.goto],
+  refine ⟨_, _, dl, by simp [Signal.step, hu, hm, hf]; rfl, by simp [Signal.goto], by simp [Signal.goto],
     by simp [Signal.goto, hf], by simp [Signal.step, Signal.goto]; rfl, by simp [Signal.done], by simp [Signal.done],
     by simp [Signal.done, hf], by simp [Signal.done]⟩
 
+
+/-- The variants of `Signal::set()` / `Signal::wait(timeout)` the contract leaves open (`St.setSkips`: no store and no broadcast
+    when the flag is already set; `St.lazyDl`: the clock is read after the lock, only when the call has to block) are part of
+    every reachable-state theorem above (`Reach.initP`).  Why the skip loses no wake-up: in every reachable state in which the
+    flag is set and the internal mutex is free — what a skipping `set()` finds when it gets the lock — NO thread is blocked in
+    the condition wait; and the skipping step itself changes neither flag nor history nor anybody else's program counter. -/
+theorem signal_set_may_skip_the_broadcast_when_already_set {set0 : Bool} {now spur : Nat} {s : Signal.St}
+    (h : Signal.Reach set0 now spur s) (hf : s.flag = true) (hm : s.m = none) :
+    (∀ u dl, s.pc u ≠ .wBlocked dl) ∧
+    (∀ t s', s.setSkips = true → s.pc t = .setLock → Signal.step s t (.run 0) = some s' →
+      s'.pc t = .setUnlock ∧ s'.m = some t ∧ s'.flag = true ∧ s'.hist = s.hist ∧ ∀ u, u ≠ t → s'.pc u = s.pc u) := by
+  refine ⟨?_, ?_⟩
+  · intro u dl hu
+    exact ((Signal.inv_reach h).noStuck hf u dl hu).1 hm
+  · intro t s' hsk hpc hs
+    simp [Signal.step, hpc, hm, hsk, hf] at hs
+    subst hs
+    exact ⟨by simp [Signal.goto], by simp [Signal.goto], by simp [Signal.goto, hf], by simp [Signal.goto],
+      fun u hu => by simp [Signal.goto, upd, hu]⟩
+
+/-- non-vacuity: the skipping, lazy instance — set(), then a second set() takes the skip path; a wait(5 ms) after a tick
+    computes its deadline from the clock at its lock (t0 = 7), not at the call (0) … except that the flag is set, so here it
+    does not compute one at all and returns true -/
+example : ∃ s, Signal.Reach false 0 0 s ∧ s.setSkips = true ∧ s.lazyDl = true ∧ s.pc 2 = .setUnlock ∧ s.flag = true ∧
+    s.hist = [.write true] := by
+  refine ⟨_, Signal.reach_runActs [(1, .call .set), (1, .run 0), (1, .run 0), (1, .run 0), (2, .call .set), (2, .run 0)]
+    (.initP true true) rfl, rfl, rfl, rfl, rfl, rfl⟩
+
+example : ∃ s d, Signal.Reach false 0 0 s ∧ s.lazyDl = true ∧ s.pc 1 = .wEnter (some d) ∧ d.t0 = 7 ∧ d.ms = 5 := by
+  refine ⟨_, _, Signal.reach_runActs [(1, .call (.twait 5)), (1, .tick 7), (1, .run 0)] (.initP false true) rfl, rfl, rfl, rfl, rfl⟩
+
+/-- the try-first variant of `Semaphore::wait(timeout)`: the fast path fails at count zero and the deadline is computed then -/
+example : ∃ s d, Sem.Reach 0 0 0 s ∧ s.tryFirst = true ∧ s.pc 1 = .twait d ∧ d.t0 = 3 ∧ d.ms = 5 := by
+  refine ⟨_, _, Sem.reach_runActs [(1, .call (.twait 5)), (1, .tick 3), (1, .run 0)] (.initP 0 true) rfl, rfl, rfl, rfl, rfl⟩
 
 example : ∃ s, Signal.Reach false 0 1 s ∧ s.flag = true ∧ s.pc 1 = .wBlocked none ∧ s.pc 2 = .setBcast := by
   refine ⟨_, Signal.reach_runActs [(1, .call .wait), (1, .run 0), (1, .run 0), (2, .call .set), (2, .run 0)] .init rfl, ?_, ?_, ?_⟩ <;> rfl
